@@ -17,6 +17,9 @@ def Justified (fs : FS) (c : Cfg) (_path : Bytes) : Outcome → Prop
   | .forbidden => ∃ n, fs n = .perm
   | .serverError => ∃ n, fs n = .other
   | .unavailable => False
+  | .sidecar p id enc =>
+    ∃ f suf, p = f ++ suf ∧ (enc, suf) ∈ c.pre ∧ enc ∈ c.accepted ∧
+      UnderS c.rootC f ∧ c.hidden f = false ∧ (∃ id0, fs f = .file id0) ∧ fs p = .file id
 
 theorem notFoundOut_justified (fs : FS) (c : Cfg) (path : Bytes) : Justified fs c path (notFoundOut c) := by
   unfold notFoundOut
@@ -25,6 +28,89 @@ theorem notFoundOut_justified (fs : FS) (c : Cfg) (path : Bytes) : Justified fs 
 theorem openAndServe_of_file {fs : FS} {c : Cfg} {f : Bytes} {id : Nat} (h : fs f = .file id) :
     openAndServe fs c f = (.file f id, [f]) := by
   simp [openAndServe, h]
+
+theorem withTrace_fst' {α : Type} (p : Bytes) (r : Traced α) : (withTrace p r).1 = r.1 := rfl
+
+theorem sidecarSuffix_mem {c : Cfg} {ae suf : Bytes} (h : sidecarSuffix c ae = some suf) : (ae, suf) ∈ c.pre := by
+  unfold sidecarSuffix at h
+  cases hf : c.pre.find? (·.1 = ae) with
+  | none => simp [hf] at h
+  | some x =>
+    simp [hf] at h
+    have hm := List.mem_of_find?_eq_some hf
+    have hp := List.find?_some hf
+    simp at hp
+    cases x with
+    | mk a b => simp at hp h; subst hp; subst h; exact hm
+
+/-- `n` is `f` plus the suffix of a configured precompressor -/
+def SidecarName (c : Cfg) (f n : Bytes) : Prop := ∃ ae suf, (ae, suf) ∈ c.pre ∧ n = f ++ suf
+
+theorem findSidecar_spec (fs : FS) (c : Cfg) (f : Bytes) : ∀ (l : List Bytes) (p : Bytes) (id : Nat) (ae : Bytes),
+    (findSidecar fs c f l).1 = some (p, id, ae) →
+      ∃ suf, p = f ++ suf ∧ (ae, suf) ∈ c.pre ∧ ae ∈ l ∧ fs p = .file id := by
+  intro l
+  induction l with
+  | nil => intro p id ae h; simp [findSidecar] at h
+  | cons a rest ih =>
+    intro p id ae h
+    unfold findSidecar at h
+    split at h
+    · obtain ⟨suf, h1, h2, h3, h4⟩ := ih p id ae h
+      exact ⟨suf, h1, h2, by simp [h3], h4⟩
+    · rename_i suf hs
+      split at h
+      · rename_i id' hf
+        simp at h
+        obtain ⟨rfl, rfl, rfl⟩ := h
+        exact ⟨suf, rfl, sidecarSuffix_mem hs, by simp, hf⟩
+      · rw [withTrace_fst'] at h
+        obtain ⟨suf', h1, h2, h3, h4⟩ := ih p id ae h
+        exact ⟨suf', h1, h2, by simp [h3], h4⟩
+
+theorem findSidecar_trace (fs : FS) (c : Cfg) (f : Bytes) : ∀ (l : List Bytes) (n : Bytes),
+    n ∈ (findSidecar fs c f l).2 → SidecarName c f n := by
+  intro l
+  induction l with
+  | nil => intro n h; simp [findSidecar] at h
+  | cons a rest ih =>
+    intro n h
+    unfold findSidecar at h
+    split at h
+    · exact ih n h
+    · rename_i suf hs
+      split at h
+      · simp at h; exact ⟨a, suf, sidecarSuffix_mem hs, h⟩
+      · simp [withTrace] at h
+        rcases h with h | h
+        · exact ⟨a, suf, sidecarSuffix_mem hs, h⟩
+        · exact ih n h
+
+theorem serveContent_justified {fs : FS} {c : Cfg} {f : Bytes} {id : Nat} (path : Bytes)
+    (h : fs f = .file id) (hu : UnderS c.rootC f) (hh : c.hidden f = false) :
+    Justified fs c path (serveContent fs c f).1 := by
+  unfold serveContent
+  split
+  · rename_i p id' ae t hfs
+    have : (findSidecar fs c f c.accepted).1 = some (p, id', ae) := by rw [hfs]
+    obtain ⟨suf, h1, h2, h3, h4⟩ := findSidecar_spec fs c f c.accepted p id' ae this
+    exact ⟨f, suf, h1, h2, h3, hu, hh, ⟨id, h⟩, h4⟩
+  · rw [openAndServe_of_file h]
+    exact ⟨hu, hh, h⟩
+
+theorem serveContent_trace {fs : FS} {c : Cfg} {f : Bytes} {id : Nat} (h : fs f = .file id) :
+    ∀ n ∈ (serveContent fs c f).2, n = f ∨ SidecarName c f n := by
+  intro n hn
+  unfold serveContent at hn
+  split at hn
+  · rename_i p id' ae t hfs
+    right; exact findSidecar_trace fs c f c.accepted n (by rw [hfs]; exact hn)
+  · rename_i t hfs
+    rw [openAndServe_of_file h] at hn
+    simp only [appendTrace, List.mem_append] at hn
+    rcases hn with hn | hn
+    · right; exact findSidecar_trace fs c f c.accepted n (by rw [hfs]; exact hn)
+    · left; simpa using hn
 
 theorem serveFile_justified {fs : FS} {c : Cfg} {f : Bytes} {id : Nat} (imp : Bool) (path orig : Bytes)
     (h : fs f = .file id) (hu : UnderS c.rootC f) : Justified fs c path (serveFile fs c f imp path orig).1 := by
@@ -36,8 +122,7 @@ theorem serveFile_justified {fs : FS} {c : Cfg} {f : Bytes} {id : Nat} (imp : Bo
   split
   · trivial
   · rename_i hh _ _
-    rw [openAndServe_of_file h]
-    exact ⟨hu, by simpa using hh, h⟩
+    exact serveContent_justified path h hu (by simpa using hh)
 
 theorem serveBrowse_justified {fs : FS} {c : Cfg} {f : Bytes} {es : List Entry} (path orig : Bytes)
     (h : fs f = .dir es) (hu : UnderS c.rootC f) (hh : c.hidden f = false) :
@@ -218,7 +303,7 @@ theorem findIndex_trace (fs : FS) (c : Cfg) (f : Bytes) : ∀ (ixs : List Bytes)
 
 theorem serveNode_trace {fs : FS} {c : Cfg} {f : Bytes} {info : Node} (imp : Bool) (path orig : Bytes)
     (h : fs f = info) (hk : (∃ id, info = .file id) ∨ (∃ es, info = .dir es)) :
-    ∀ n ∈ (serveNode fs c f info imp path orig).2, n = f := by
+    ∀ n ∈ (serveNode fs c f info imp path orig).2, n = f ∨ SidecarName c f n := by
   intro n hn
   rcases hk with ⟨id, rfl⟩ | ⟨es, rfl⟩
   · simp only [serveNode, serveFile] at hn
@@ -228,17 +313,18 @@ theorem serveNode_trace {fs : FS} {c : Cfg} {f : Bytes} {info : Node} (imp : Boo
     · simp at hn
     split at hn
     · simp at hn
-    · rw [openAndServe_of_file h] at hn; simpa using hn
+    · exact serveContent_trace h n hn
   · simp only [serveNode, serveBrowse] at hn
     split at hn
     · split at hn
       · simp at hn
-      · simpa using hn
+      · left; simpa using hn
     · simp at hn
 
 theorem serveStatOk_trace {fs : FS} {c : Cfg} {f : Bytes} {info : Node} (path orig : Bytes)
     (h : fs f = info) (hk : (∃ id, info = .file id) ∨ (∃ es, info = .dir es)) :
-    ∀ n ∈ (serveStatOk fs c f info path orig).2, n = f ∨ ∃ ix, n = sanitizedPathJoin f ix := by
+    ∀ n ∈ (serveStatOk fs c f info path orig).2,
+      (n = f ∨ SidecarName c f n) ∨ ∃ ix, n = sanitizedPathJoin f ix ∨ SidecarName c (sanitizedPathJoin f ix) n := by
   intro n hn
   unfold serveStatOk at hn
   split at hn
@@ -248,18 +334,25 @@ theorem serveStatOk_trace {fs : FS} {c : Cfg} {f : Bytes} {info : Node} (path or
       obtain ⟨h1, h2, ix, _, h3⟩ := findIndex_spec fs c f c.index ip inode hfi'
       simp only [appendTrace, List.mem_append] at hn
       rcases hn with hn | hn
-      · right; exact findIndex_trace fs c f c.index n (by rw [hfi]; exact hn)
-      · right; exact ⟨ix, (serveNode_trace true path orig h1 h2 n hn).trans h3⟩
+      · right
+        obtain ⟨ix', e⟩ := findIndex_trace fs c f c.index n (by rw [hfi]; exact hn)
+        exact ⟨ix', Or.inl e⟩
+      · right
+        rcases serveNode_trace true path orig h1 h2 n hn with e | e
+        · exact ⟨ix, Or.inl (e.trans h3)⟩
+        · exact ⟨ix, Or.inr (h3 ▸ e)⟩
     · rename_i t hfi
       simp only [appendTrace, List.mem_append] at hn
       rcases hn with hn | hn
-      · right; exact findIndex_trace fs c f c.index n (by rw [hfi]; exact hn)
+      · right
+        obtain ⟨ix', e⟩ := findIndex_trace fs c f c.index n (by rw [hfi]; exact hn)
+        exact ⟨ix', Or.inl e⟩
       · left; exact serveNode_trace false path orig h hk n hn
   · left; exact serveNode_trace false path orig h hk n hn
 
 /-- a name handed to the filesystem while serving `path` -/
 def TraceOK (c : Cfg) (path n : Bytes) : Prop :=
-  n = [] ∨ UnderS c.rootC n ∨ SlashPrefix (requestFile c path) n
+  n = [] ∨ UnderS c.rootC n ∨ (∃ f, UnderS c.rootC f ∧ SidecarName c f n) ∨ SlashPrefix (requestFile c path) n
 
 theorem serve_trace (fs : FS) (c : Cfg) (path orig : Bytes) (hfs : fs [] = .missing) :
     ∀ n ∈ (serve fs c path orig).2, TraceOK c path n := by
@@ -276,9 +369,11 @@ theorem serve_trace (fs : FS) (c : Cfg) (path orig : Bytes) (hfs : fs [] = .miss
     · have key : ∀ info, fs (requestFile c path) = info → ((∃ id, info = .file id) ∨ (∃ es, info = .dir es)) →
           n ∈ (serveStatOk fs c (requestFile c path) info path orig).2 → TraceOK c path n := by
         intro info hi hk hm
-        rcases serveStatOk_trace path orig hi hk n hm with e | ⟨ix, e⟩
+        rcases serveStatOk_trace path orig hi hk n hm with (e | e) | ⟨ix, e | e⟩
         · right; left; rw [e]; exact Or.inl hu
+        · right; right; left; exact ⟨_, Or.inl hu, e⟩
         · right; left; rw [e]; exact sanitizedPathJoin_under c.rootE _ ix hu
+        · right; right; left; exact ⟨_, sanitizedPathJoin_under c.rootE _ ix hu, e⟩
       split at hn
       · rename_i id hf
         exact key _ hf (Or.inl ⟨id, rfl⟩) hn
@@ -286,7 +381,7 @@ theorem serve_trace (fs : FS) (c : Cfg) (path orig : Bytes) (hfs : fs [] = .miss
         exact key _ hf (Or.inr ⟨es, rfl⟩) hn
       · have hm : n ∈ (mapDirOpenError fs (fs (requestFile c path)) (requestFile c path)).2 := by
           split at hn <;> (rename_i hm; rw [hm]; exact hn)
-        right; right
+        right; right; right
         exact mapDirOpenError_trace fs _ _ n hm
 
 end CaddyModel.C07
